@@ -394,6 +394,48 @@ let run_daemonreq fields = match fields with
      | DRefusedReadOnly _ -> "refused-read-only" | DReceiver (_, _) -> "receiver")
   | _ -> failwith "daemonreq: want 3 fields"
 
+
+(* ---- daemon file list for request paths ---- *)
+let zl_of_string (s : string) : z list = List.init (String.length s) (fun i -> z_of_int (Char.code s.[i]))
+let parse_ftree (s : string) : ftree =
+  let pos = ref 0 in
+  let n = String.length s in
+  let rec tree () : ftree =
+    if !pos >= n then failwith "tree: eof" else
+    match s.[!pos] with
+    | 'F' -> incr pos; TFile
+    | 'O' -> incr pos; TOther
+    | 'D' ->
+      incr pos;
+      if !pos < n && s.[!pos] = '(' then begin
+        incr pos;
+        let cs = ref [] in
+        let continue = ref true in
+        while !continue do
+          let st = !pos in
+          while s.[!pos] <> ':' do incr pos done;
+          let name = String.sub s st (!pos - st) in
+          incr pos;
+          let t = tree () in
+          cs := (zl_of_string name, t) :: !cs;
+          if s.[!pos] = ',' then incr pos else (incr pos; continue := false)
+        done;
+        TDir (List.rev !cs)
+      end else TDir []
+    | _ -> failwith "tree: bad char" in
+  tree ()
+let contains_sub (s : string) (sub : string) : bool =
+  let n = String.length s and m = String.length sub in
+  let rec go i = i + m <= n && (String.sub s i m = sub || go (i + 1)) in go 0
+let run_serve fields = match fields with
+  | [mname; tree; paths; _fsb] ->
+    let ps = List.map string_of_hexstr (split ',' paths) in
+    if List.exists (fun p -> List.exists (contains_sub p) ["out-dir"; "out-file"; "out-up"; "in-dir"; "in-file"; "abs-out"]) ps then "SKIP" else
+    let names = daemon_serve (bytes_of_hex mname) (parse_ftree tree) (List.map zl_of_string ps) in
+    let hs = List.sort compare (List.map hex_of_bytes_plain names) in
+    String.concat ";" hs
+  | _ -> failwith "serve: want 4 fields"
+
 (* ---- option parser ---- *)
 let run_popt fields = match fields with
   | [argv] ->
@@ -521,6 +563,7 @@ let dispatch comp fields =
   | "decision" -> run_decision fields
   | "gensums" -> run_gensums fields
   | "genops" -> run_genops fields
+  | "serve" -> run_serve fields
   | "daemonreq" -> run_daemonreq fields
   | "atomic" -> run_atomic fields
   | "recvmeta" -> run_recvmeta fields
